@@ -206,27 +206,44 @@ def run(p, led, tier):
 
 
 # ----------------------------------------------------------------------
+def _is_allowed(fi, e, depth=0):
+    """expression denotes the configured capability ceiling (`self.allowed_capabilities`, or a local bound to it)"""
+    if "allowed_capabilities" in src(e):
+        return True
+    if isinstance(e, ast.Name) and depth < 3:
+        defs = _tool_origin(fi, e.id)
+        return bool(defs) and all(_is_allowed(fi, d, depth + 1) for d in defs)
+    return False
+
+
 def _classify(fi, atom, toolvar):
     """('restricted', pol) for tests of `allowed_capabilities is (not) None`;
     ('subset', pol) for `<req>.issubset(<allowed>)`, `<req> <= <allowed>`, `not (<req> - <allowed>)` where <req> derives from the tool"""
-    s = src(atom)
-    if isinstance(atom, ast.Compare) and len(atom.ops) == 1 and "allowed_capabilities" in src(atom.left) and isinstance(atom.comparators[0], ast.Constant) and atom.comparators[0].value is None:
+    if isinstance(atom, ast.Compare) and len(atom.ops) == 1 and _is_allowed(fi, atom.left) and isinstance(atom.comparators[0], ast.Constant) and atom.comparators[0].value is None:
         if isinstance(atom.ops[0], (ast.IsNot, ast.NotEq)):
             return ("restricted", True)
         if isinstance(atom.ops[0], (ast.Is, ast.Eq)):
             return ("restricted", False)
-    if isinstance(atom, ast.Call) and isinstance(atom.func, ast.Attribute) and atom.func.attr == "issubset" and atom.args and "allowed_capabilities" in src(atom.args[0]):
+    if isinstance(atom, ast.Call) and isinstance(atom.func, ast.Attribute) and atom.func.attr == "issubset" and atom.args and _is_allowed(fi, atom.args[0]):
         if _derives_from_tool(fi, atom.func.value, toolvar):
             return ("subset", True)
-    if isinstance(atom, ast.Call) and isinstance(atom.func, ast.Attribute) and atom.func.attr == "issuperset" and "allowed_capabilities" in src(atom.func.value) and atom.args:
+    if isinstance(atom, ast.Call) and isinstance(atom.func, ast.Attribute) and atom.func.attr == "issuperset" and _is_allowed(fi, atom.func.value) and atom.args:
         if _derives_from_tool(fi, atom.args[0], toolvar):
             return ("subset", True)
-    if isinstance(atom, ast.Compare) and len(atom.ops) == 1 and isinstance(atom.ops[0], ast.LtE) and "allowed_capabilities" in src(atom.comparators[0]):
+    if isinstance(atom, ast.Compare) and len(atom.ops) == 1 and isinstance(atom.ops[0], ast.LtE) and _is_allowed(fi, atom.comparators[0]):
         if _derives_from_tool(fi, atom.left, toolvar):
             return ("subset", True)
-    if isinstance(atom, ast.BinOp) and isinstance(atom.op, ast.Sub) and "allowed_capabilities" in src(atom.right):
+    if isinstance(atom, ast.Compare) and len(atom.ops) == 1 and isinstance(atom.ops[0], ast.GtE) and _is_allowed(fi, atom.left):
+        if _derives_from_tool(fi, atom.comparators[0], toolvar):
+            return ("subset", True)
+    if isinstance(atom, ast.BinOp) and isinstance(atom.op, ast.Sub) and _is_allowed(fi, atom.right):
         if _derives_from_tool(fi, atom.left, toolvar):
             return ("subset", False)     # non-empty difference  <=>  not a subset
+    if isinstance(atom, ast.Name):
+        # a local bound once to one of the forms above (`missing = needed - granted; if missing: raise`)
+        defs = _tool_origin(fi, atom.id)
+        if len(defs) == 1 and not isinstance(defs[0], ast.Name):
+            return _classify(fi, defs[0], toolvar)
     return None
 
 
